@@ -64,7 +64,9 @@ def config(pid, extra_props=None):
         "coq_targets": ["theories/Sched/Corr.vo", "theories/Sched/Properties%s.vo" % (pid if pid != "C07" else "C07s")],
         "properties_files": ["theories/Sched/Properties%s.v" % (pid if pid != "C07" else "C07s")],
         "required_theorems": REQUIRED.get(pid, []),
-        "violation_kinds": [pid + ":"],
+        # kinds of other properties' predicates that also state part of this property
+        "violation_kinds": [pid + ":"] + {"C03": ["C02:cancelled-for-lack-of-waiters", "C02:progress-message-for-unregistered"],
+                                          "C02": ["C06:task-reissued-beyond-retry-limit"]}.get(pid, []),
         "extend": extend,
         "harnesses": [
             {"cmd": "sched", "cases_quick": 96, "cases_thorough": 1200, "shards_quick": 16, "shards_thorough": 96, "shared": True, "procs": 4},
